@@ -230,3 +230,30 @@ SPECS["C12"] = parse_spec("C12", "judge_c12", "dcase", [("data", 2500, 60000)],
 SPECS["C05"] = parse_spec("C05", "judge_c05", "dcase", [("fuzz", 2500, 100000), ("data", 800, 20000)],
     "text spliced from ~60 fragments (keys of every enrichment path with valid, malformed and extreme values, quotes, backslashes, the AVC/LOGIN/CRED_DISP peculiarities, huge argc) behind six header variants, for each specially handled record type and random types; plus the kernel-encoded records of C12. "
     "Each message: Data, Tags, ToMapStr twice (must be equal), under recover() and a 5 s deadline. non-trivial = Data() succeeded; distinct by case term")
+
+
+def explore_c09(spec, res, a):
+    n = 1500 if a.tier == "quick" else 40000
+    return V.standard_explore(spec, res, a, [("h_coalesce", ["-mode", "events", "-seed", str(res.seed), "-n", str(n)]), ("h_coalesce", ["-mode", "modes"])])
+
+
+def explore_c15(spec, res, a):
+    n = 1500 if a.tier == "quick" else 40000
+    rc = V.standard_explore(spec, res, a, [("h_coalesce", ["-mode", "events", "-seed", str(res.seed), "-n", str(n)])])
+    rc |= V.race_run(res, "h_coalesce", ["-mode", "race", "-seed", str(res.seed), "-n", "300" if a.tier == "quick" else "20000"])
+    return rc
+
+
+COAL_RULE = ("record groups parsed from generated text: empty and EOE-only groups, single records of ~15 named and random types, SYSCALL groups with any subset and (one third) any order of CWD, PATH x n (all name types, seven mode classes and an unparsable mode), "
+             "EXECVE (argc consistent, too large, non-numeric), SOCKADDR (IPv4, IPv6, unix, netlink, too short), PROCTITLE, AVC/other records, a special record in front, groups without SYSCALL; extra fields drawn from a pool that collides across records "
+             "(pid, uid, exe, cwd, addr, items, socket_addr, argc, a0, result, ses, subj_user, ...); records without data content. Each group is coalesced three times with snapshots of every input's Data/Tags/ToMapStr before and after, "
+             "ResolveIDs with hard-coded users on a returned event whose ECS slices are then mutated, and the last 8 events of the run are re-compared after every later call. non-trivial = an event was returned; distinct by case term")
+SPECS["C09"] = dict(targets=["Properties/C09.vo"], judge_targets=["Check/ChkCoalesce.vo"], imports="Require Import Bytes Parser ChkCoalesce.\nLocal Open Scope string_scope.", case_type="ecase", judge="judge_c09",
+                    shard=2500, explore=explore_c09, exhaustive=True,
+                    rule=COAL_RULE + "; plus ALL 65536 st_mode values on the selected PATH record (exhaustive)",
+                    assumptions=["records enter the checker as what AuditMessage.Data()/Tags() returned for them (the parser is covered by C04/C05/C12)",
+                                 "the event is observed through its JSON form (all exported fields) plus Event.Warnings"])
+SPECS["C15"] = dict(targets=["Properties/C15.vo"], judge_targets=["Check/ChkCoalesce.vo"], imports="Require Import Bytes Parser ChkCoalesce.", case_type="ecase", judge="judge_c15",
+                    shard=150, explore=explore_c15, rule=COAL_RULE,
+                    assumptions=["equality of snapshots / events is computed by the harness with reflect.DeepEqual on canonical dumps",
+                                 "data-race freedom is a runtime fact: supported by a race-detector run (16 goroutines, each coalescing and resolving its own events, sharing the package tables and ID caches), not proved"])
